@@ -49,14 +49,22 @@ def finite(x):
 class Pair(object):
     """controller + twin on one store"""
 
-    def __init__(self, rig, parms):
+    def __init__(self, rig, parms, preset=()):
+        """preset: names of parameters that the application configured in the controller's .parm share before the
+        controller was built (a script's `init ... .parm with ovmax 3.0 ...`); the controller is then built with other
+        initial values for them, which only fill in what is missing: the configured ones stay in force"""
         self.store = rig.storing.Store(stamp=0.0)
         self.parms = parms
         self.ctl = []
         for who in ("a", "b"):
+            given = dict(parms)
+            if preset:
+                self.store.create(who + ".pid.parm").update(**{k: parms[k] for k in preset})
+                for k in preset:
+                    given[k] = {"ovmax": 1e6, "ovmin": -1e6, "esmax": 1e6, "esmin": -1e6, "wrap": 0.0, "drsp": 1e9}.get(k, 0.0)
             c = rig.controlling.ControllerPid(name="vfpid" + who, store=self.store)
             c._initio(rig.odict(group=who + ".pid", output=who + ".out", input=who + ".in",
-                                rate=who + ".rate", rsp=who + ".rsp", parms=dict(parms)))
+                                rate=who + ".rate", rsp=who + ".rsp", parms=given))
             self.ctl.append(c)
 
     def reset(self, parms):
@@ -94,7 +102,12 @@ class Rig(object):
         try:
             self.nseq += 1
             if self.pair is None or self.nseq % 50 == 0:
-                self.pair = Pair(self, parms)          # real construction path (_initio with parms)
+                preset = ()
+                if (self.nseq // 50) % 2 == 1:
+                    preset = [("ovmax", "ovmin", "esmax", "esmin"), ("ovmax", "ovmin"), ("esmax", "esmin", "wrap", "drsp"),
+                              ("wrap",)][(self.nseq // 100) % 4]
+                    ctx.hit("controllers_built_on_a_partly_configured_parm_share")
+                self.pair = Pair(self, parms, preset=preset)          # real construction path (_initio with parms)
                 ctx.hit("controllers_built")
             else:
                 self.pair.reset(parms)
@@ -312,6 +325,7 @@ def worker(ctx, job):
 
 
 def run(ctx):
+    ctx.floor("controllers_built_on_a_partly_configured_parm_share", ctx.pick(100, 2000))
     parts = ctx.pick(8, 16)
     jobs = [{"kind": "grid", "part": p, "parts": parts} for p in range(parts)]
     n = ctx.pick(6000, 800000)
